@@ -219,6 +219,30 @@ def run(ctx):
                 V('recorded-block-refused', "recorded block %d no longer passes full validation after altered copies of recorded "
                   "blocks had been offered (and refused) in the same process: %r" % (h, e), {'k': 'rec'})
                 break
+    # the recorded blocks as they arrive inside longer byte streams (a frame that carries a few bytes after the block, several
+    # blocks in one buffer): decoded with the stream decoder, they are still the recorded blocks and validate each other
+    if all(b is not None for b in blocks):
+        import io
+        rawsx = [raw for (h, hexid, raw) in recorded]
+        for pad in (b'\x00' * 7, b''.join(rawsx[1:3])):
+            try:
+                objs = [Block.stream_deserialize(io.BytesIO(r + pad)) for r in rawsx]
+            except Exception as e:
+                V('recorded-block-refused', "a recorded block followed by %d more bytes in the stream cannot be decoded: %r" % (len(pad), e),
+                  {'k': 'rec'})
+                continue
+            csx = CoinState.empty().add_block_no_validation(objs[0])
+            for h in range(1, len(objs)):
+                n += 1
+                try:
+                    if objs[h].hash().hex() != recorded[h][1] or objs[h].serialize() != rawsx[h]:
+                        V('recorded-id', "recorded block %d decoded from a longer stream does not keep its id / bytes" % h, {'k': 'rec'})
+                    csx = csx.add_block(objs[h], objs[h].timestamp)
+                except Exception as e:
+                    V('recorded-block-refused', "recorded block %d fails full validation when the recorded blocks were decoded from "
+                      "streams carrying %d more bytes after each block: %r" % (h, len(pad), e), {'k': 'rec'})
+                    break
+            del csx, objs
     # the recorded chain once more on FRESH objects after the earlier ones were dropped (a node does this after a
     # roll-back and re-download): whatever the implementation remembers about block objects that no longer exist must not
     # be served for new ones.  Deserialized in a different order in every round, with k filler objects in between, k = 0..R-1.
